@@ -494,7 +494,8 @@ class UTPM(Ring, RawAlgorithmsMixIn):
             self.data[0,...] -= rhs
         else:
             self_data, rhs_data = UTPM._broadcast_arrays(self.data, rhs.data)
-            self_data[...] -= rhs_data[...]
+            # self_data[...] -= rhs_data[...]
+            numpy.subtract(self_data, rhs_data, out=self_data, casting="unsafe")
         return self
 
     def __imul__(self,rhs):
